@@ -29,4 +29,8 @@ CHECKS = [
           budget={"quick": 128, "thorough": 4000}),
     Check("scripted_sim", sim_execute([J.judge_c03], J.nontrivial_c03, max_steps=1500), strategy=lambda tier: specs.scripted_worlds(contention=True, max_runtime=4, zero_runtime=True),
           budget={"quick": 600, "thorough": 30000}),
+    # plan-ahead placements of strategies whose runtime is written in milliseconds, next to running microsecond tasks: remaining times
+    # of different units are compared by the main loop before the first step normalises them (S03j)
+    Check("scripted_ms_sim", sim_execute([J.judge_c03], J.nontrivial_c03, max_steps=1500),
+          strategy=lambda tier: specs.scripted_worlds(contention=True, max_runtime=4, ms_runtime=True), budget={"quick": 600, "thorough": 20000}),
 ]
